@@ -4,18 +4,42 @@ From Coq Require Import String Ascii.
 From Cel.Model Require Import Parser Position.
 From Coq Require Import Lia.
 
+Lemma nchars_app a b : nchars (a ++ b) = (nchars a + nchars b)%nat.
+Proof. unfold nchars. now rewrite filter_app, app_length. Qed.
+Lemma nchars_le bs : (nchars bs <= length bs)%nat.
+Proof. unfold nchars. induction bs as [|b bs IH]; cbn [filter length]; [lia|]. destruct (negb (is_cont b)); cbn [length]; lia. Qed.
+
+(** the column of an offset inside a line: at most the line's character count when the offset
+    is the start of a character, and never more than one past it *)
+Lemma col_in_line p k : (k < length p)%nat ->
+  (nchars (firstn k p) + 1 <= nchars p + 1)%nat /\
+  (is_cont (nth k p 0%N) = false -> (nchars (firstn k p) + 1 <= nchars p)%nat).
+Proof.
+  intros Hk. assert (E0 : nchars p = (nchars (firstn k p) + nchars (skipn k p))%nat)
+    by (rewrite <- nchars_app, firstn_skipn; reflexivity).
+  split; [lia|].
+  intros Hc. destruct (skipn k p) as [|b r] eqn:E.
+  - pose proof (skipn_length k p) as L. rewrite E in L. cbn in L. lia.
+  - assert (Hb : nth k p 0%N = b).
+    { rewrite <- (firstn_skipn k p) at 1. rewrite app_nth2 by (rewrite firstn_length; lia).
+      rewrite firstn_length, E. replace (k - Nat.min k (length p))%nat with O by lia. reflexivity. }
+    rewrite Hb in Hc. assert (1 <= nchars (b :: r))%nat by (unfold nchars; cbn [filter]; rewrite Hc; cbn [negb length]; lia).
+    lia.
+Qed.
+
 Lemma pos_in_bounds pieces : forall start offset line l c,
   (offset <= start)%nat ->
   pos_in pieces start offset line = Some (l, c) ->
   (line < l <= line + length pieces)%nat /\
-  exists piece, nth_error pieces (l - line - 1) = Some piece /\ (1 <= c <= length piece)%nat.
+  exists piece k, nth_error pieces (l - line - 1) = Some piece /\ (k < length piece)%nat /\
+                  c = (nchars (firstn k piece) + 1)%nat.
 Proof.
   induction pieces as [|p rest IH]; intros start offset line l c Hle; cbn [pos_in]; [discriminate|].
   destruct (Nat.ltb_spec start (offset + length p)) as [H|H].
   - intros [= <- <-]. split; [cbn; lia|].
-    exists p. replace (S line - line - 1)%nat with O by lia. split; [reflexivity|lia].
-  - intros Hp. destruct (IH start (offset + length p)%nat (S line) l c H Hp) as (H1 & piece & H2 & H3).
-    split; [cbn; lia|]. exists piece. split; [|assumption].
+    exists p, (start - offset)%nat. replace (S line - line - 1)%nat with O by lia. split; [reflexivity|]. split; [lia|reflexivity].
+  - intros Hp. destruct (IH start (offset + length p)%nat (S line) l c H Hp) as (H1 & piece & k & H2 & H3).
+    split; [cbn; lia|]. exists piece, k. split; [|assumption].
     replace (l - line - 1)%nat with (S (l - S line - 1)) by lia. exact H2.
 Qed.
 
@@ -51,18 +75,22 @@ Proof.
 Qed.
 
 (** Every offset inside the source has a position, and every position reported lies on an
-    existing line, at a column between 1 and that line's length (newline included). *)
+    existing line, at a column - counted in characters - between 1 and one past that line's
+    character count (newline included); at most the character count when the offset is where a
+    character starts (every token does). *)
 Lemma pos_for_in_source src start :
   ((start < length src)%nat -> pos_for src start <> None) /\
   forall l c, pos_for src start = Some (l, c) ->
     (1 <= l <= length (split_inclusive src []))%nat /\
-    exists piece, nth_error (split_inclusive src []) (l - 1) = Some piece /\
-                  (1 <= c <= length piece)%nat.
+    exists piece k, nth_error (split_inclusive src []) (l - 1) = Some piece /\ (k < length piece)%nat /\
+                    (1 <= c <= nchars piece + 1)%nat /\
+                    (is_cont (nth k piece 0%N) = false -> (c <= nchars piece)%nat).
 Proof.
   split.
   - intros H. apply pos_in_total; [lia|]. rewrite split_inclusive_length. cbn. lia.
-  - intros l c H. destruct (pos_in_bounds _ start 0 0 l c ltac:(lia) H) as (H1 & piece & H2 & H3).
-    split; [lia|]. exists piece. split; [|assumption]. now replace (l - 1)%nat with (l - 0 - 1)%nat by lia.
+  - intros l c H. destruct (pos_in_bounds _ start 0 0 l c ltac:(lia) H) as (H1 & piece & k & H2 & H3 & ->).
+    split; [lia|]. exists piece, k. split; [now replace (l - 1)%nat with (l - 0 - 1)%nat by lia|]. split; [exact H3|].
+    destruct (col_in_line piece k H3) as [A B]. split; [lia|exact B].
 Qed.
 
 (** A character no token rule can start with rejects the source at that point. *)
